@@ -316,7 +316,11 @@ impl World {
         let node = self.node(i);
         let Some(tx) = node.inbound.as_ref() else { return false };
         let (ack, _rx) = tokio::sync::oneshot::channel();
-        tx.send(bft::FromNetworkMessage { msg: msg.clone(), ack });
+        // the queue's filter / selection functions run in the caller (in production: the network's RPC handler task)
+        let req = bft::FromNetworkMessage { msg: msg.clone(), ack };
+        if let Err(p) = vcommon::catch(|| tx.send(req)) {
+            self.log.push(Ev::InboundPanic { node: i, location: p.loc(), message: p.message });
+        }
         true
     }
 
